@@ -706,6 +706,42 @@ def oracle_c(ctx, rng, h, revs):
 
 # ----------------------------------------------------------------------------- case
 
+def blob_bytes(v):
+    return v[1] if v[0] == "file" else v[1].encode("utf-8") if v[0] == "symlink" else None
+
+
+def workload_shape(ctx, base, r, old):
+    """Counts the revision shapes the export / import shortcuts are sensitive to (workload counters, no verdict):
+    a path that another entry occupied in the base revision (vacated and re-occupied in one revision), and an entry
+    that changed kind between file and symlink while the bytes git stores for it stayed the same."""
+    for path, fid in r["ids"].items():
+        v = r["snap"][path]
+        bfid = base["ids"].get(path)
+        if bfid is not None and bfid != fid:
+            was = old.get(fid)
+            if was is None:
+                how = "new"
+            else:
+                same = v[0] != "directory" and base["snap"][was] == v
+                if v[0] == "directory":
+                    sub = {q[len(path):]: (w, r["ids"][q]) for q, w in r["snap"].items() if q.startswith(path + "/")}
+                    bsub = {q[len(was):]: (w, base["ids"][q]) for q, w in base["snap"].items() if q.startswith(was + "/")}
+                    same = sub == bsub
+                how = "moved-unchanged" if same else "moved-changed"
+            gone = bfid not in r["ids"].values()
+            ctx.hist("shape:path-taken-over:%s:%s:%s" % (v[0], how, "previous-removed" if gone else "previous-moved"))
+            ctx.count("w_path_taken_over")
+            if v[0] == "directory" and how == "moved-unchanged" and gone and prune_empty({"x": v, **{"x" + k: w[0] for k, w in sub.items()}}).get("x"):
+                ctx.count("w_untouched_directory_onto_removed_path")
+        bpath = old.get(fid)
+        if bpath is not None:
+            bv = base["snap"][bpath]
+            if bv[0] != v[0] and {bv[0], v[0]} == {"file", "symlink"} and blob_bytes(bv) == blob_bytes(v):
+                ctx.hist("shape:kind-change-same-blob:%s->%s%s" % (bv[0], v[0], ":exec" if (bv[2] or v[2]) else ""))
+                ctx.count("w_kind_change_same_blob")
+
+
+
 def case(ctx):
     from vf.checks import _c35_hist as H
     from vf.observe import snap_tree, strip_ids
@@ -720,7 +756,8 @@ def case(ctx):
     names = H.GitNames(ctx.tier)
     weights = H.WEIGHTS_KC if rng.random() < 0.4 else H.WEIGHTS
     try:
-        h = H.build(ctx, rng, fmt, nrevs=nrevs, nbranches=3 if not thorough else 4, names=names, weights=weights)
+        h = H.build(ctx, rng, fmt, nrevs=nrevs, nbranches=3 if not thorough else 4, names=names, weights=weights,
+                    extra_kinds=H.EXTRA_KINDS + H.REUSE_KINDS * 2, start=H.rich_start if rng.random() < 0.75 else None)
         repo = H.gather(h)
     except Exception as e:  # workload construction, not the operation under test
         ctx.discard("history-construction:%s" % type(e).__name__)
@@ -739,6 +776,9 @@ def case(ctx):
                 ctx.hist("entry:" + ("exec-file" if v[0] == "file" and v[2] else v[0]))
             if prune_empty(snap) != snap:
                 ctx.hist("tree:has-empty-directory")
+    for e in h.log:
+        if "extra" in e:
+            ctx.hist("extra:%s" % e["extra"])
     suspect = set()
     for rid in h.order:
         r = revs[rid]
@@ -746,6 +786,7 @@ def case(ctx):
         if p0 is None:
             continue
         old = {fid: p for p, fid in revs[p0]["ids"].items()}
+        workload_shape(ctx, revs[p0], r, old)
         for path, obj in r["objs"].items():
             if path and obj.type_name == b"tree" and old.get(r["ids"].get(path), path) != path:
                 suspect.add(obj.id)
